@@ -23,6 +23,9 @@ type abortInstance struct {
 	callees   func(p *Program) (map[*types.Func]bool, error)
 	sentinels [][2]string // {pkg path, name} whose true edge is exempt
 	anchor    string
+	// valueUsedOnly: the obligation exists only where the call's value result is used
+	// (a call made to probe for existence, whose value is discarded, is exempt)
+	valueUsedOnly bool
 }
 
 // abortsOnly: from block b every path reports the failure.
@@ -113,6 +116,18 @@ func runAbortInstance(p *Program, r *RuleResult, inst abortInstance) error {
 			}
 			key := callKey(fn, ci)
 			what := "a failure of " + calleeLabel(ci) + " ends the operation with an error"
+			if inst.valueUsedOnly {
+				used := false
+				for _, ref := range *call.Referrers() {
+					if ex, ok := ref.(*ssa.Extract); ok && !isErrorType(ex.Type()) && len(*ex.Referrers()) > 0 {
+						used = true
+					}
+				}
+				if !used {
+					r.exempt(key, p.Rel(ci.Pos()), what, "the value read here is discarded (the call only probes for existence); no gate sees a stale previous value through it")
+					continue
+				}
+			}
 			fail := successEdgesFail(fn, call)
 			if len(fail) == 0 {
 				// returned directly, or handed to the caller through a named result
